@@ -124,14 +124,20 @@ func (r *schemaRenderer) body(i int) []string {
 		if strings.HasPrefix(lit, "str:") {
 			script = "'" + script + "'"
 		}
+		extra := ""
 		if strings.HasPrefix(lit, "throw:") {
-			script = "throw '" + script + "'"
+			// (the throwing script is given an argument, the probing one reports whether that name is defined)
+			script = "throw '" + script + "' + a1"
+			extra = `, {"const": "a1"}, {"const": "v"}`
+		}
+		if strings.HasPrefix(lit, "probe:") {
+			script = "typeof a1 === 'undefined' ? '" + script + "' : 'sees a1 = ' + a1"
 		}
 		ie := ""
 		if len(t.Ie) >= i && t.Ie[i-1] {
 			ie = `, "ignore_error": true`
 		}
-		parts = append(parts, `"custom_func": {"name": "javascript", "args": [{"const": `+jstr(script)+`}]`+ie+`}`)
+		parts = append(parts, `"custom_func": {"name": "javascript", "args": [{"const": `+jstr(script)+`}`+extra+`]`+ie+`}`)
 	case "object":
 		var fs []string
 		for k, c := range t.kids(i) {
